@@ -57,7 +57,7 @@ def signature(name, t, pre, post):
         "pre_reason": pre["ro"].get("reason", ""), "pre_state": pre["ro"].get("state", ""),
         "post_reason": post["ro"].get("reason", ""), "post_state": post["ro"].get("state", ""),
         "pre_phase": pre["ro"].get("phase", ""), "kind": pre["wl"].get("kind", ""), "style": pre["wl"].get("style", ""),
-        "brEver": post["ghost"].get("brEver"), "jumpBack": post["ghost"].get("jumpBack"), "lateChange": post["ghost"].get("lateChange"),
+        "brEver": post["ghost"].get("brEver"), "jumpBack": post["ghost"].get("jumpBack"), "lateChange": post["ghost"].get("lateChange"), "disSup": post["ghost"].get("disSup"),
         "planEdited": bool(pre["used"].get("user.editplan")), "pre_hashOk": pre["ro"].get("hashOk"),
         "workloadObserved": pre["wl"].get("genOk"),
     }
